@@ -35,7 +35,7 @@ class LinearOperator(EditableModule):
 
     def __new__(cls, *args, **kwargs):
         # check the implemented functions in the class
-        if not cls._implementation_checked:
+        if not cls.__dict__.get("_implementation_checked", False):
             cls._is_mv_implemented = cls.__check_if_implemented("_mv")
             cls._is_mm_implemented = cls.__check_if_implemented("_mm")
             cls._is_rmv_implemented = cls.__check_if_implemented("_rmv")
